@@ -26,7 +26,10 @@ RULE = (
     "selector and an optional column selector (One|Many|Slice|Mask|All on each axis, negative positions, reversed / "
     "reordered subsets, empty selections), copy() and to_dict()/mkdm round trips; a small share of links is malformed on "
     "purpose (unknown label, out-of-range position, wrong mask length, zero step, scalar (label,label) form) and must be "
-    "refused with the same exception class by model and code; a request naming a label twice only ever ends a chain. "
+    "refused with the same exception class by model and code; a request naming a label twice only ever ends a chain and is "
+    "judged by the correspondence only (not a subset: outside the property). The (rows, single column) form of loc/iloc "
+    "(repaired by F10) is an ordinary selection and has its own stream incl. empty row selections and alternatives whose "
+    "labels are also criterion labels. "
     "Thorough adds ALL chains of length <= 2 over a fixed selector alphabet on a 3x3 matrix. Alias stream: every alias of "
     "the code, upper/lower/title variants of the string ones, and non-aliases. Non-trivial: the chain changes the order or "
     "the set of criteria or alternatives at least once (or an alias case); distinct by case hash."
@@ -46,12 +49,6 @@ PARTIAL = (
     "lower-casing is exercised by the correspondence on case variants, the Lean alias theorem is about the literal table"
 )
 EXHAUSTIVE = True
-
-# identity of the one defect of the present code this check knows (see the final report / known_findings.json)
-COLSERIES_IDENTITY = {
-    "site": "skcriteria/core/data.py _Loc.__getitem__ (Series branch: to_frame().T)",
-    "input": "loc/iloc[(rows, single column)] where every selected alternative label is also a criterion label (or no row is selected)",
-}
 
 # ------------------------------------------------------------------------------------------ aliases
 # independent table, written from the documentation of `Objective` (tutorial + docstrings)
@@ -151,7 +148,8 @@ def is_one(sel):
 
 
 def requested(alts, crits, step):
-    """(status, form, alts', crits'); form in frame|row|colseries|scalar|same"""
+    """(status, form, alts', crits'); form in frame|row|colseries|scalar|same
+    (colseries = `(rows, single column)`: an ordinary one-criterion selection since F10)"""
     kind = step["kind"]
     if kind in ("copy", "roundtrip"):
         return "ok", "same", list(alts), list(crits)
@@ -344,7 +342,7 @@ def gen_step(rng, alts, crits, last):
     with_cols = rng.random() < 0.6
     form = rng.random()
     scalar = bool(last and with_cols and form < 0.04 and alts and crits)
-    colseries = bool(last and with_cols and not scalar and form < 0.12 and crits)
+    colseries = bool(with_cols and not scalar and form < 0.12 and crits)
     bad_axis = rng.choice(["r", "c", "rc"] if with_cols else ["r"]) if bad else ""
     dup_axis = rng.choice(["r", "c", "rc"] if with_cols and not colseries else ["r"]) if dup else ""
     sel = (lambda labels, **kw: gen_label_sel(rng, labels, **kw)) if kind == "loc" else (lambda labels, **kw: gen_pos_sel(rng, len(labels), **kw))
@@ -375,7 +373,7 @@ def gen_chain(rng, dm, length):
         for _ in range(20):
             step = gen_step(rng, alts, crits, last)
             st, form, a, c = requested(alts, crits, step)
-            ends = st != "ok" or form in ("scalar", "colseries") or has_dup(a, c)
+            ends = st != "ok" or form == "scalar" or has_dup(a, c)
             if not ends or last:
                 break
         chain.append(step)
@@ -427,7 +425,7 @@ def exhaustive_cases():
     for s in alpha:
         out.append({"kind": "chain", "dm": EX_DM, "chain": [s], "ex": True})
         st, form, a, c = requested(alts, crits, s)
-        if st != "ok" or form in ("scalar", "colseries") or has_dup(a, c):
+        if st != "ok" or form == "scalar" or has_dup(a, c):
             continue  # the chain ends there (refused, or outside the quantifier)
         for t in alpha:
             out.append({"kind": "chain", "dm": EX_DM, "chain": [s, t], "ex": True})
@@ -461,7 +459,8 @@ def alias_cases():
 
 
 def colseries_cases(rng, n):
-    """the `(rows, single column)` form: refused in general; returns a transposed matrix in the corner"""
+    """the `(rows, single column)` form (F10): one criterion, the selected alternatives as rows; with empty row
+    selections and alternatives whose labels are also criterion labels, possibly continued by further links"""
     out = []
     for i in range(n):
         shared = i % 3 == 0
@@ -480,7 +479,7 @@ def colseries_cases(rng, n):
         a, c, ok = list(alts), list(crits), True
         for s in pre:
             st, form, a, c = requested(a, c, s)
-            if st != "ok" or form in ("scalar", "colseries") or has_dup(a, c):
+            if st != "ok" or form == "scalar" or has_dup(a, c):
                 ok = False
                 break
         if pre and ok and a and c:
@@ -493,14 +492,21 @@ def colseries_cases(rng, n):
                 cols = {"one": _rand_pos(rng, len(c))}
         else:
             continue_chain = []
-        out.append({"kind": "chain", "dm": dm, "chain": continue_chain + [{"kind": kind, "rows": rows, "cols": cols}]})
+        chain = continue_chain + [{"kind": kind, "rows": rows, "cols": cols}]
+        a, c, ok = list(alts), list(crits), True
+        for s in chain:
+            st, form, a, c = requested(a, c, s)
+            ok = ok and st == "ok" and form != "scalar" and not has_dup(a, c)
+        if ok and rng.random() < 0.5:
+            chain += gen_chain(rng, {"alternatives": a, "criteria": c}, rng.randint(1, 2))
+        out.append({"kind": "chain", "dm": dm, "chain": chain})
     return out
 
 
 def gen(ctx):
     rng = ctx.rng
     cases = alias_cases()
-    for _ in range(ctx.n(1500, 9000)):
+    for _ in range(ctx.n(1500, 20000)):
         dm = dm_case(rng)
         cases.append({"kind": "chain", "dm": dm, "chain": gen_chain(rng, dm, rng.randint(1, 6))})
     cases += colseries_cases(rng, ctx.n(60, 400))
@@ -795,15 +801,14 @@ def judge(case, obs, replies):
         st, form, ra, rc = requested(alts, crits, step)
         where = f"link {n} {step}"
         if "err" in o:
-            if st == "ok" and form in ("frame", "row", "same") and not has_dup(ra, rc):
+            if st == "ok" and form != "scalar" and not has_dup(ra, rc):
                 prop(f"{where}: a valid selection was refused with {o['err']}: {o.get('msg')}", {"alts": ra, "crits": rc}, o["err"])
             stopped = True
             break
         s = o["dm"]
-        ident = COLSERIES_IDENTITY if form == "colseries" else None
-        if st == "bad" or form == "scalar":
-            # the code answered a malformed request: nothing to compare the order with, the by-label clause still binds
-            pass
+        ident = None
+        if st == "ok" and has_dup(ra, rc):
+            break  # a label named twice is not a subset: outside the property (the correspondence below still judges it)
         mis = by_label_mismatch(s, src)
         if mis:
             prop(f"{where}: {mis[0]}", mis[1], mis[2], ident)
@@ -874,7 +879,7 @@ def tags(case, obs):
         if "err" in o:
             t.append("refused:" + o["err"])
             break
-        if st == "ok" and form in ("frame", "row"):
+        if st == "ok" and form in ("frame", "row", "colseries"):
             if has_dup(a, c):
                 t.append("duplicate-request")
             else:
@@ -883,7 +888,7 @@ def tags(case, obs):
                 if sorted(a, key=alts.index) != a:
                     t.append("alternatives-reordered")
         if form == "colseries":
-            t.append("column-series-form-answered")
+            t.append("column-series-form")
         alts, crits = o["dm"]["alts"], o["dm"]["crits"]
     return t
 
